@@ -80,6 +80,18 @@ pub fn rdata_tok(d: &RData) -> String {
     }
 }
 
+/// RDATA token as the reference compares it: the domain name inside NS / CNAME RDATA ignores ASCII case
+/// (RFC 4343; a length octet <= 63 is never a letter, so lower-casing the octets lower-cases the labels)
+pub fn norm_rd(rtype: u16, rd: String) -> String {
+    if (rtype == T_NS || rtype == T_CNAME) && rd.starts_with('x') {
+        if let Some(b) = unhex(&rd[1..]) {
+            let l: Vec<u8> = b.iter().map(|c| c.to_ascii_lowercase()).collect();
+            return format!("x{}", hex(&l));
+        }
+    }
+    rd
+}
+
 pub fn rec_tok(r: &Record) -> String {
     format!("{},{},{},{},{}", name_tok(&r.name), u16::from(r.record_type()), u16::from(r.dns_class), r.ttl, rdata_tok(&r.data))
 }
@@ -194,7 +206,7 @@ pub fn snapshot(rt: &tokio::runtime::Runtime, h: &Handler) -> Snap {
             for r in set.records_without_rrsigs() {
                 let rd = rdata_tok(&r.data);
                 items.push(format!("{}:{}", r.ttl, rd));
-                rrs.push(RR { name: kn.clone(), rtype: t, ttl: r.ttl, rd });
+                rrs.push(RR { name: kn.clone(), rtype: t, ttl: r.ttl, rd: norm_rd(t, rd) });
             }
             if items.is_empty() {
                 ghosts.push((kn.clone(), t));
@@ -305,7 +317,8 @@ pub fn mrr(origin: &Name, r: &Record) -> MRR {
     let ol: Vec<Vec<u8>> = lower_name(origin).iter().map(|l| l.to_vec()).collect();
     let nl: Vec<Vec<u8>> = ln.iter().map(|l| l.to_vec()).collect();
     let in_zone = nl.len() >= ol.len() && nl[nl.len() - ol.len()..] == ol[..];
-    MRR { name: name_tok(&ln), in_zone, rtype: u16::from(r.record_type()), class: u16::from(r.dns_class), ttl: r.ttl, rd: rdata_tok(&r.data) }
+    let rtype = u16::from(r.record_type());
+    MRR { name: name_tok(&ln), in_zone, rtype, class: u16::from(r.dns_class), ttl: r.ttl, rd: norm_rd(rtype, rdata_tok(&r.data)) }
 }
 
 /// RFC 1982 serial comparison, 32 bit: a < b
@@ -890,14 +903,37 @@ pub const NAMES_OUT: [&str; 2] = ["other.org.", "com."];
 
 pub const SERIALS: [u32; 12] = [0, 1, 50, 100, 101, 200, 0x7FFF_FFFF, 0x8000_0000, 0x8000_0064, 0xFFFF_FFF0, 0xFFFF_FFFE, 0xFFFF_FFFF];
 
+/// a random spelling of a name: as is / every letter's case flipped at random / all upper case.
+/// Case is preserved on the wire; the server must treat all spellings alike (RFC 4343).
+pub fn cased(rng: &mut Rng, s: &str) -> String {
+    match rng.below(10) {
+        0..=4 => s.to_string(),
+        5..=7 => s.chars().map(|c| if rng.chance(1, 2) { c.to_ascii_uppercase() } else { c.to_ascii_lowercase() }).collect(),
+        8 => s.to_ascii_uppercase(),
+        _ => {
+            // only the zone part in upper case
+            match s.find("example.com.") {
+                Some(i) => format!("{}EXAMPLE.COM.", &s[..i]),
+                None => s.to_ascii_uppercase(),
+            }
+        }
+    }
+}
+
 fn rdata_for(rng: &mut Rng, t: u16) -> RData {
     use hickory_proto::rr::rdata::{A, AAAA, CNAME, NS, TXT};
     match t {
         T_A => RData::A(A::new(10, 0, 0, rng.range(1, 3) as u8)),
         T_AAAA => RData::AAAA(AAAA::new(0x2001, 0xdb8, 0, 0, 0, 0, 0, rng.range(1, 2) as u16)),
         T_TXT => RData::TXT(TXT::new(vec![format!("t{}", rng.range(1, 2))])),
-        T_NS => RData::NS(NS(n(*rng.pick(&["ns1.example.com.", "ns2.example.com.", "ns.sub.example.com."])))),
-        T_CNAME => RData::CNAME(CNAME(n(*rng.pick(&["a.example.com.", "b.example.com."])))),
+        T_NS => {
+            let t = *rng.pick(&["ns1.example.com.", "ns2.example.com.", "ns.sub.example.com."]);
+            RData::NS(NS(n(&cased(rng, t))))
+        }
+        T_CNAME => {
+            let t = *rng.pick(&["a.example.com.", "b.example.com."]);
+            RData::CNAME(CNAME(n(&cased(rng, t))))
+        }
         _ => RData::TXT(TXT::new(vec!["zz".to_string()])),
     }
 }
@@ -928,7 +964,8 @@ fn pick_ttl(rng: &mut Rng) -> u32 {
 pub fn gen_zone(rng: &mut Rng) -> Vec<Record> {
     let serial = if rng.chance(1, 3) { *rng.pick(&SERIALS) } else { 100 };
     let mut z = vec![soa_rec("example.com.", 3600, serial, 0)];
-    let mk = |name: &str, ttl: u32, d: RData| Record::from_rdata(n(name), ttl, d);
+    let up = rng.chance(1, 4);
+    let mk = move |name: &str, ttl: u32, d: RData| Record::from_rdata(n(&if up { name.to_ascii_uppercase() } else { name.to_string() }), ttl, d);
     use hickory_proto::rr::rdata::{A, CNAME, NS, TXT};
     z.push(mk("example.com.", 3600, RData::NS(NS(n("ns1.example.com.")))));
     if rng.chance(2, 3) {
@@ -965,7 +1002,8 @@ pub fn gen_zone(rng: &mut Rng) -> Vec<Record> {
 }
 
 pub fn gen_prereq(rng: &mut Rng) -> Record {
-    let name = n(pick_name(rng));
+    let picked = pick_name(rng);
+    let name = n(&cased(rng, picked));
     let t = pick_type(rng);
     let form = rng.below(100);
     let mut r = if form < 18 {
@@ -995,14 +1033,17 @@ pub fn gen_prereq(rng: &mut Rng) -> Record {
 }
 
 pub fn gen_update(rng: &mut Rng) -> Record {
-    let name_s = pick_name(rng);
+    let picked = pick_name(rng);
+    let name_s = cased(rng, picked);
+    let name_s = name_s.as_str();
     let name = n(name_s);
     let t = pick_type(rng);
     let form = rng.below(100);
     if form < 50 {
         // add to an RRset
         if t == T_SOA {
-            let at = if rng.chance(4, 5) { "example.com." } else { name_s };
+            let apex = cased(rng, "example.com.");
+            let at = if rng.chance(4, 5) { apex.as_str() } else { name_s };
             let serial = *rng.pick(&SERIALS);
             soa_rec(at, *rng.pick(&[3600, 300]), serial, rng.below(2) as u32)
         } else {
